@@ -62,10 +62,51 @@ def _to_cvc5(smt):
     return '\n'.join(lines)
 
 
+_JOBS = []
+_AXIOMS = ()
+
+
+def _run_z3_direct(ob, timeout_ms, axioms):
+    s = z3.Solver()
+    s.set('timeout', timeout_ms)
+    s.set('random_seed', 7)
+    t0 = time.time()
+    try:
+        for a in axioms:
+            s.add(a)
+        for p in ob.pc:
+            s.add(p)
+        s.add(z3.Not(ob.goal))
+        r = s.check()
+    except z3.Z3Exception as e:
+        return 'error', time.time() - t0, str(e)
+    dt = time.time() - t0
+    if r == z3.unsat:
+        return 'unsat', dt, None
+    if r == z3.sat:
+        m = s.model()
+        out = {}
+        for name, term in ob.witnesses:
+            try:
+                out[name] = str(m.eval(term, model_completion=True))
+            except z3.Z3Exception:
+                pass
+        return 'sat', dt, out
+    return 'unknown', dt, s.reason_unknown()
+
+
 def solve_one(job):
-    idx, smt, timeout_ms, witness_names, use_cvc5 = job
-    res, dt, info = _run_z3(smt, timeout_ms, set(witness_names))
+    idx, timeout_ms, use_cvc5 = job
+    axioms = _AXIOMS
+    ob = _JOBS[idx]
+    res, dt, info = _run_z3_direct(ob, timeout_ms, axioms)
     solver = 'z3'
+    smt = ''
+    if res in ('unknown', 'error') and use_cvc5:
+        try:
+            smt = ob.smt2(axioms)
+        except Exception:
+            smt = 'lambda'
     if res in ('unknown', 'error') and use_cvc5 and 'lambda' not in smt and 'define-fun-rec' not in smt:
         r2, dt2, info2 = _run_cli(['/usr/bin/cvc5', '--strings-exp', '--tlimit=%d' % timeout_ms],
                                   _to_cvc5(smt), timeout_ms / 1000 + 5)
@@ -82,10 +123,12 @@ def discharge(obligations, timeout_ms=20000, procs=None, use_cvc5=True, axioms=(
         if z3.is_true(g):
             ob.status, ob.solver, ob.time = 'proved', 'simplifier', 0.0
             continue
-        smt = ob.smt2(axioms)
-        jobs.append((i, smt, timeout_ms, [str(w[1]) for w in ob.witnesses], use_cvc5))
+        jobs.append((i, timeout_ms, use_cvc5))
     if not jobs:
         return
+    global _JOBS, _AXIOMS
+    _JOBS = obligations
+    _AXIOMS = tuple(axioms)
     procs = procs or min(16, max(1, len(jobs)))
     if procs == 1 or len(jobs) == 1:
         results = [solve_one(j) for j in jobs]
